@@ -160,7 +160,7 @@ Ltac keep c := exists c; split; [|split; [left; reflexivity | apply incl_refl]].
 Lemma remove_bucket_sub : forall s sp k, sub s (remove_bucket CS s sp k).
 Proof.
   intros s sp k. unfold remove_bucket. destruct (find_bucket sp k (bks s)) as [b|] eqn:Eb; [|apply sub_refl].
-  split; [|reflexivity]. intros sp' k' c H. unfold entries in *. cbn [bks limbo set_core] in H.
+  split; [|reflexivity]. intros sp' k' c H. unfold entries in *. cbn [bks limbo set_core set_ipass] in H.
   apply in_app_or in H. destruct H as [H|H].
   - keep c. apply in_or_app. left. apply in_bentries in H. destruct H as [b' [Hb R]]. apply in_bentries. exists b'. split; [eapply drop_bucket_incl; eassumption | assumption].
   - apply in_app_or in H. destruct H as [H|H]; [keep c; apply in_or_app; right; assumption|].
@@ -230,18 +230,22 @@ Proof.
   eapply sub_trans; [apply Hf|]. eapply sub_trans; [|apply signal_if_sub]. apply sub_ext; reflexivity.
 Qed.
 
-Lemma do_invalidate_sub : forall s step times, sub s (do_invalidate CS s step times).
+Lemma inval_where_sub : forall s p starts tI, sub s (set_bks s (inval_where p starts tI (bks s))).
 Proof.
-  intros s step times. unfold do_invalidate. split; [|reflexivity].
-  intros sp k c' H. unfold entries in *. cbn [bks limbo set_core] in H. apply in_app_or in H. destruct H as [H|H].
+  intros s p starts tI. split; [|reflexivity].
+  intros sp k c' H. unfold entries, set_bks, inval_where in *. cbn [bks limbo set_core] in H. apply in_app_or in H. destruct H as [H|H].
   - apply in_bentries in H. destruct H as [b' [Hb [S1 [S2 Hc]]]]. apply in_map_iff in Hb. destruct Hb as [b [E Hb]].
-    destruct (b_step b =? step).
+    destruct (p b).
     + subst b'. cbn [b_step b_key b_chunks] in *. apply in_map_iff in Hc. destruct Hc as [c [E Hc]].
       exists c. split; [apply in_or_app; left; apply in_bentries; exists b; auto|].
       subst c'. destruct (existsb _ _); split; try (left; reflexivity); apply incl_refl.
     + subst b'. keep c'. apply in_or_app. left. apply in_bentries. exists b. auto.
   - keep c'. apply in_or_app. right. assumption.
 Qed.
+Lemma do_invalidate_sub : forall s step times, sub s (do_invalidate CS s step times).
+Proof. intros. apply inval_where_sub. Qed.
+Lemma inv_one_sub : forall s step key starts tI, sub s (inv_one s step key starts tI).
+Proof. intros. unfold inv_one. eapply sub_trans; [apply inval_where_sub | apply sub_ext; reflexivity]. Qed.
 
 (* ---- Get ---- *)
 Lemma entry_ok_same : forall G R sp k c c', c_data c' = c_data c -> c_aw c' = c_aw c -> entry_ok G R (sp, k, c) -> entry_ok G R (sp, k, c').
@@ -355,7 +359,7 @@ Proof.
   { apply (fold_apply_disp_J G); [assumption | assumption | apply Forall_combine_Q; exact Hg |].
     split; [exact Hold | apply keyed_repeat]. }
   destruct Ha as [J1 J2].
-  set (rnew := mkReq rid step key _ (ia_data a) _ _ _ false _ _ _).
+  set (rnew := mkReq rid step key _ (ia_data a) _ _ _ false _ _ _ false).
   destruct (finish_reqs (reqs s ++ [rnew])) as [rs evs] eqn:Ef. cbn [fst].
   assert (Hrs : forall r, In r rs -> In r (reqs s) \/ r = rnew).
   { intros r Hr. unfold finish_reqs in Ef. injection Ef as <- _. apply filter_In in Hr. destruct Hr as [Hr _].
@@ -514,11 +518,14 @@ Qed.
 
 (* ---- every step, every history ---- *)
 Definition rid_ok (G : Z) (o : op) : Prop := match o with Get rid _ _ _ _ _ _ => G < rid | _ => True end.
+
+Lemma KInv_sub_step : forall G s s', sub s s' -> KInv G s -> KInv G s'.
+Proof. exact KInv_sub. Qed.
 Definition next_G (G : Z) (o : op) : Z := match o with Get rid _ _ _ _ _ _ => rid | _ => G end.
 
 Lemma step_K : forall G s o, rid_ok G o -> KInv G s -> KInv (next_G G o) (fst (step CS COL ROW FX s o)).
 Proof.
-  intros G s o Hr K. destruct o as [d|rid sp k f t p fo|l ok|sp ts| |a m so|]; cbn [step next_G].
+  intros G s o Hr K. destruct o as [d|rid sp k f t p fo|l ok|sp ts| |a m so| |rid|sp ts|]; cbn [step next_G].
   - eapply KInv_sub; [apply sub_ext; reflexivity | exact K].
   - pose proof (do_get_K G s rid sp k f t p fo Hr K) as H. destruct (do_get CS s rid sp k f t p fo) as [s1 e]. cbn [fst] in *.
     eapply KInv_sub; [apply run_trim_sub | exact H].
@@ -530,6 +537,16 @@ Proof.
     unfold do_setlimits. destruct (if m <=? 0 then _ else _) as [mx' soft']. destruct (_ || _); [apply sub_refl | apply sub_ext; reflexivity].
   - cbn [fst]. eapply KInv_sub; [|exact K]. unfold do_shutdown. destruct (shut s); [apply sub_refl|].
     eapply sub_trans; [|apply reduce_sub]. apply sub_ext; reflexivity.
+  - unfold do_cancel. destruct (existsb _ _); cbn [fst]; [|assumption]. destruct K as [K1 K2].
+    assert (Hi : iks (reqs s) (map (fun r => if r_id r =? rid then mkReq (r_id r) (r_step r) (r_key r) (r_t0 r) (r_data r) (r_ls r) (r_le r) (r_wait r)
+                                                  (r_err r) (r_mode r) (r_load r) (r_chunks r) true else r) (reqs s))).
+    { intros r' Hr'. apply in_map_iff in Hr'. destruct Hr' as [r [E Hin]]. exists r. split; [assumption|]. destruct (r_id r =? rid); subst r'; cbn; auto. }
+    split; cbn [reqs set_core].
+    + intros e He. eapply entry_ok_iks; [exact Hi | apply K1; exact He].
+    + intros r' Hr'. apply in_map_iff in Hr'. destruct Hr' as [r [E Hin]]. destruct (K2 r Hin) as [A B].
+      destruct (r_id r =? rid); subst r'; split; assumption.
+  - cbn [fst]. unfold do_inv_begin. destruct (first_key sp (bks s)); (eapply KInv_sub; [|exact K]); [apply inv_one_sub | apply sub_ext; reflexivity].
+  - cbn [fst]. unfold do_inv_next. destruct (ipass s) as [[[[sp starts] tI] [k|]]|]; (eapply KInv_sub; [|exact K]); [apply inv_one_sub | apply sub_ext; reflexivity | apply sub_ext; reflexivity].
 Qed.
 
 (* what a step returns comes out of the requests in flight after do_get / during do_loaddone: all returned rows
